@@ -30,7 +30,7 @@ KindClass(k) == CASE k \in {"not_enough_arguments", "too_many_arguments"} -> "ar
                   [] OTHER -> "other"
 OutMatches(o, out) ==
   IF o.amb THEN TRUE
-  ELSE IF "ok" \in DOMAIN out THEN IsVOk(o) /\ o.ok = out.ok
+  ELSE IF "ok" \in DOMAIN out THEN IsVOk(o) /\ Matches(o.ok, out.ok)
   ELSE IF "err" \in DOMAIN out THEN IsVErr(o) /\ out.err.class = "runtime" /\ KindClass(out.err.kind) = o.err
   ELSE FALSE
 CallsMatch(exp, obs) == Len(exp) = Len(obs) /\ \A i \in DOMAIN exp : exp[i].id = obs[i].id /\ exp[i].args = obs[i].args
